@@ -312,7 +312,7 @@ namespace con
         reverseTable = new(table + tableLength) EntryArraySet<KeyT, ValueT> *[tableLength]() - 1;
 
         // rehash the table
-        for (uintptr_t i = std::min(oldTableLength, newCount); i > 0; i--)
+        for (uintptr_t i = oldTableLength; i > 0; i--)
         {
             // rehash all entries from the old table
             EntryArraySet<KeyT, ValueT>* old;
@@ -326,6 +326,11 @@ namespace con
                 e->SetNext(table[index]);
                 table[index] = e;
             }
+        }
+
+        // copy the index table
+        for (uintptr_t i = std::min(oldTableLength, newCount); i > 0; i--)
+        {
             reverseTable[i] = oldReverseTable[i];
         }
 
